@@ -3,7 +3,7 @@
 import os, sys, json, time
 sys.path.insert(0, os.path.dirname(os.path.abspath(__file__)))
 import common, mir, obligations, smtrun
-scr = "/var/tmp/fx/smt"
+scr = os.environ.get("DEVSMT_SCR", "/var/tmp/fx/smt")
 args = sys.argv[1:]
 fresh = False
 if args and args[0] == "--fresh":
